@@ -22,14 +22,23 @@
 (* found, for which TLC exhibits a marker that survives recovery.          *)
 (***************************************************************************)
 EXTENDS Integers, Sequences, FiniteSets, TLC
-CONSTANTS Order, MarkersFirst
+CONSTANTS Order, MarkersFirst,
+          StepRecovery,   \* FALSE: recovery is one atomic step (what C14 quantifies over: one crash, then a recovery that runs to its end)
+          RCrashes        \* with StepRecovery: how many times the recovering instance may itself stop (0, 1, ...)
 Nodes == {Order[k] : k \in 1..Len(Order)}
 VARIABLES use, rec, cont, marker, wal, pcM, i, pcI, allocd, failed, faults, phase, leak, msgs
-vars == <<use, rec, cont, marker, wal, pcM, i, pcI, allocd, failed, faults, phase, leak, msgs>>
+\* recovery as a step machine (wal/hydro.go Recover + the handlers of cluster/calcium/wal.go):
+\*   cur    the event being handled (<<"none", "">> between two events);  rstep  where its handler is
+\*   rfix   nodes whose usage the allocation handler has already repaired;  rcr  crashes of the recovering instance still allowed
+VARIABLES cur, rstep, rfix, rcr
+rvars == <<cur, rstep, rfix, rcr>>
+vars == <<use, rec, cont, marker, wal, pcM, i, pcI, allocd, failed, faults, phase, leak, msgs, rvars>>
+None == <<"none", "">>
 
 Init == /\ use = [n \in Nodes |-> 0] /\ rec = {} /\ cont = {} /\ marker = [n \in Nodes |-> -1] /\ wal = {}
         /\ pcM = "lock" /\ i = 1 /\ pcI = [n \in Nodes |-> "idle"] /\ allocd = {} /\ failed = {}
         /\ faults = 1 /\ phase = "run" /\ leak = {} /\ msgs = 0
+        /\ cur = None /\ rstep = "pick" /\ rfix = {} /\ rcr = RCrashes
 
 Cur == Order[i]
 M(l) == pcM' = l
@@ -125,23 +134,58 @@ InstStep(n) ==
             /\ Same(<<use, rec, cont, marker, pcM, i, allocd, failed, faults, leak, msgs>>)
        [] OTHER -> FALSE
 
+RecN(n) == IF n \in rec THEN 1 ELSE 0
 (* ---- crash and recovery ---- *)
 Crash == /\ phase = "run" /\ pcM # "closed" /\ phase' = "crashed"
          /\ Same(<<use, rec, cont, marker, wal, pcM, i, pcI, allocd, failed, faults, leak, msgs>>)
 \* the handlers in the order of the log: allocation event first (fix usage to the recorded workloads), then the markers,
 \* then the created workloads (a recorded one is removed through RemoveWorkload, which also gives its usage back)
-Recover == /\ phase = "crashed" /\ phase' = "recovered"
+Recover == /\ ~StepRecovery /\ phase = "crashed" /\ phase' = "recovered"
            /\ LET fixed == IF <<"alloc", "">> \in wal THEN [n \in Nodes |-> IF n \in rec THEN 1 ELSE 0] ELSE use
                   gone == {n \in Nodes : <<"wl", n>> \in wal}
               IN /\ use' = [n \in Nodes |-> IF n \in gone /\ n \in rec THEN fixed[n] - 1 ELSE fixed[n]]
                  /\ rec' = rec \ gone /\ cont' = cont \ gone
                  /\ marker' = [n \in Nodes |-> IF <<"proc", n>> \in wal THEN -1 ELSE marker[n]]
            /\ wal' = {} /\ Same(<<pcM, i, pcI, allocd, failed, faults, leak, msgs>>)
-Next == MainStep \/ (\E n \in Nodes : InstStep(n)) \/ Crash \/ Recover
-Spec == Init /\ [][Next]_vars /\ WF_vars(MainStep) /\ \A n \in Nodes : WF_vars(InstStep(n))
+
+(* ---- recovery step by step: the events in the order of the log, one handler step per external call, the event deleted ---- *)
+(* ---- when its handler has returned; the recovering instance may stop between any two steps and a fresh one starts over ---- *)
+Prio(e) == CASE e[1] = "alloc" -> 0 [] e[1] = "proc" -> 1 [] OTHER -> 2        \* log order: allocation, markers, created workloads
+RSame == Same(<<pcM, i, pcI, allocd, failed, faults, leak, msgs, rcr>>)
+RStart == /\ StepRecovery /\ phase = "crashed" /\ phase' = "recovering"
+          /\ cur' = None /\ rstep' = "pick" /\ rfix' = {} /\ Same(<<use, rec, cont, marker, wal>>) /\ RSame
+RStep ==
+  /\ phase = "recovering" /\ RSame
+  /\ CASE rstep = "pick" ->
+            IF wal = {} THEN phase' = "recovered" /\ Same(<<use, rec, cont, marker, wal, cur, rstep, rfix>>)
+            ELSE /\ \E e \in wal : (\A f \in wal : Prio(e) <= Prio(f)) /\ cur' = e
+                      /\ rstep' = CASE e[1] = "alloc" -> "fix" [] e[1] = "proc" -> "delmarker"
+                                     [] OTHER -> IF e[2] \in rec THEN "rm-use" ELSE "rm-cont"      \* CreateWorkloadHandler: GetWorkload
+                 /\ Same(<<use, rec, cont, marker, wal, rfix, phase>>)
+       [] rstep = "fix" ->          \* WorkloadResourceAllocatedHandler: NodeResource(fix) per node, any order
+            IF rfix = Nodes THEN rstep' = "del" /\ Same(<<use, rec, cont, marker, wal, cur, rfix, phase>>)
+            ELSE \E n \in Nodes \ rfix : /\ use' = [use EXCEPT ![n] = RecN(n)] /\ rfix' = rfix \cup {n}
+                                        /\ Same(<<rec, cont, marker, wal, cur, rstep, phase>>)
+       [] rstep = "delmarker" ->    \* ProcessingCreatedHandler
+            /\ marker' = [marker EXCEPT ![cur[2]] = -1] /\ rstep' = "del" /\ Same(<<use, rec, cont, wal, cur, rfix, phase>>)
+       [] rstep = "rm-use" ->       \* RemoveWorkload: give the usage back ...
+            /\ use' = [use EXCEPT ![cur[2]] = @ - 1] /\ rstep' = "rm-rec" /\ Same(<<rec, cont, marker, wal, cur, rfix, phase>>)
+       [] rstep = "rm-rec" ->       \* ... remove the record ...
+            /\ rec' = rec \ {cur[2]} /\ rstep' = "rm-cont" /\ Same(<<use, cont, marker, wal, cur, rfix, phase>>)
+       [] rstep = "rm-cont" ->      \* ... remove the container
+            /\ cont' = cont \ {cur[2]} /\ rstep' = "del" /\ Same(<<use, rec, marker, wal, cur, rfix, phase>>)
+       [] rstep = "del" ->          \* hydro.recover: delete the event
+            /\ wal' = wal \ {cur} /\ cur' = None /\ rstep' = "pick" /\ rfix' = {} /\ Same(<<use, rec, cont, marker, phase>>)
+       [] OTHER -> FALSE
+RCrash == /\ phase = "recovering" /\ rcr > 0 /\ rcr' = rcr - 1 /\ phase' = "crashed"
+          /\ cur' = None /\ rstep' = "pick" /\ rfix' = {}
+          /\ Same(<<use, rec, cont, marker, wal, pcM, i, pcI, allocd, failed, faults, leak, msgs>>)
+MainR == MainStep /\ UNCHANGED rvars
+InstR(n) == InstStep(n) /\ UNCHANGED rvars
+Next == MainR \/ (\E n \in Nodes : InstR(n)) \/ ((Crash \/ Recover) /\ UNCHANGED rvars) \/ RStart \/ RStep \/ RCrash
+Spec == Init /\ [][Next]_vars /\ WF_vars(MainR) /\ (\A n \in Nodes : WF_vars(InstR(n))) /\ WF_vars(RStart) /\ WF_vars(RStep)
 
 (* ---- properties ---- *)
-RecN(n) == IF n \in rec THEN 1 ELSE 0
 Count(n) == RecN(n) + (IF marker[n] > 0 THEN marker[n] ELSE 0)
 \* C13 while the deployment runs: recorded <= count <= prior (0) + planned (1)
 CountInBounds == phase = "run" => \A n \in Nodes : RecN(n) <= Count(n) /\ Count(n) <= 1
@@ -155,4 +199,6 @@ RecoveredClean == phase = "recovered" =>
                   /\ \A n \in Nodes : marker[n] = -1 /\ use[n] = RecN(n)
                   /\ rec \subseteq cont /\ (cont \ rec) \subseteq leak
 Closes == <>(phase # "run" \/ pcM = "closed")
+\* a recovery, however often it is interrupted (at most RCrashes times), ends
+RecoveryEnds == (phase = "crashed" /\ StepRecovery) ~> (phase = "recovered")
 =============================================================================
